@@ -143,6 +143,16 @@ SUMMARY = {
  "C15-o": "an error at the overhead step (fault between response and next) is returned only after invoke-runtime-done was sent with status success",
  "C16-o": "AWS_LAMBDA_RUNTIME_API built from the configured host and port instead of the listener's: with port 0 processes are told :0",
  "C20-o": "the last-resort crop of the error cause crops message and working_directory once to a per-string worst case: two escape-heavy strings together exceed 64 KiB",
+ "C01-p": "failure completion message posted without its invocation id: a late one (sender delayed across a timeout reset) completes the next invocation with 502 / empty body",
+ "C02-p": "SendResponse reports an oversized body before the id check: a stale oversized /response panics the handler instead of being refused with 400",
+ "C03-p": "agent maps' Clear leaves the identifier index: a late /next with an identifier of the previous generation counts as an arrival at the new init barrier",
+ "C04-p": "register with an empty event list is taken as INVOKE + SHUTDOWN",
+ "C08-p": "the runtime's identity string is forgotten when the next runtime is started instead of at the reset: a generation that fails before its runtime is launched reports the previous one's",
+ "C10-p": "success completion message posted without its invocation id: a late one releases the next invocation early (empty answer, a further caller admitted)",
+ "C12-p": "buffered response body wrapped in MaxBytesReader(limit + 1): limit + 2 bytes or more break the handler - no 413, runtime stuck in its response state",
+ "C17-p": "Trailer header Set instead of Add for a streaming-mode function in a buffered direct invoke: the End-Of-Response trailer is no longer announced and is dropped",
+ "C18-p": "the watcher releases the runtime's parked poll when the runtime exits: a restore requested after the runtime died in its restore poll is reported successful",
+ "C19-p": "the expired-deadline check of Kill moved before the already-terminated fast path: Kill of an exited process fails and its group is left alone",
  "C04-e": "AwaitRuntimeReady of the invoke flow waits on the response gate: the invocation completes before the runtime asked for next",
  "C11-e": "a cancelled gate whose count is met returns success from AwaitGateCondition",
  "C13-e": "event validation of register only looks at the last element: an illegal event before a legal one registers a ghost / wrong error type",
